@@ -511,3 +511,31 @@ def r12(rr, repo):
         own = isinstance(f, ast.Attribute) and U(f.value) in names
         rr.ob("the meter is taken from the client's own provider", own, cm, n, witness=f'{U(n.targets[0])} = {U(n.value)[:70]}; own provider: {sorted(names)}', key=f'meter-of-own-provider|{U(n.targets[0])}')
     rr.sites += len(meters) + len(exp)
+
+
+@rule('C16.R13', "a run's exporter ends with the run: the metric readers of the telemetry client a run builds are threads of the process, and the emitter they hand their (allow-list filtered) facet to is "
+                 "shared by every run in the process - left running, the reader of a finished run puts ITS metrics back into the emitter at its next tick, and the heartbeats of the following run carry "
+                 "them although that run's own allow-list (none: lock-down) lets nothing through. The teardown of a run shuts the client's MeterProvider down")
+def r13(rr, repo):
+    FIL = 'openfilter/filter_runtime/filter.py'
+    fm, fini = repo.find(f'{FIL}::Filter.fini')
+    _, init = repo.find(f'{FIL}::Filter.init')
+    made = [n for n in walk_scope(init) if isinstance(n, ast.Assign) and isinstance(n.value, ast.Call) and U(n.value.func).endswith('OpenTelemetryClient')]
+    rr.floor('telemetry clients built per run (Filter.init)', len(made), 1, fm, init)
+    holder = U(made[0].targets[0])                      # self.otel
+    attr = holder.split('.', 1)[1]
+    # the provider reaches a local through getattr(getattr(self, 'otel', None), 'provider', None) / self.otel.provider
+    def is_provider_term(x):
+        t = U(x).replace('"', "'")
+        return t == f'{holder}.provider' or (t.startswith('getattr(') and f"'{attr}'" in t and "'provider'" in t)
+    locals_ = {U(n.target) for n in ast.walk(fini) if isinstance(n, ast.NamedExpr) and is_provider_term(n.value)} | \
+              {U(n.targets[0]) for n in walk_scope(fini) if isinstance(n, ast.Assign) and is_provider_term(n.value)}
+    downs = [c for c in q.calls_in(fini) if isinstance(c.func, ast.Attribute) and c.func.attr == 'shutdown' and (is_provider_term(c.func.value) or U(c.func.value) in locals_)]
+    rr.ob("fini() shuts down the MeterProvider of the run's telemetry client", bool(downs), fm, downs[0] if downs else fini, witness=U(downs[0])[:60] if downs else f'no <{holder}.provider>.shutdown() in fini()', key='provider-ends-with-the-run')
+    for c in downs:
+        g = [(t, pol) for t, pol in q.effective_guards(c, fini)]
+        okg = all(('is not None' in t and pol) or ('is None' in t and not pol) for t, pol in g)
+        rr.ob('the shutdown is conditional on nothing but the client having a provider', okg, fm, c, witness=str(g)[:140], key='provider-shutdown-unconditional')
+    cm, cinit = repo.find(f'{CL}::OpenTelemetryClient.__init__')
+    prov = [n for n in walk_scope(cinit) if isinstance(n, ast.Assign) and isinstance(n.value, ast.Call) and U(n.value.func).split('.')[-1] == 'MeterProvider' and any(U(t) == 'self.provider' for t in n.targets)]
+    rr.ob('the client keeps its provider where the teardown finds it (self.provider)', bool(prov), cm, prov[0] if prov else cinit, key='provider-kept')
